@@ -15,7 +15,9 @@ import (
 	"strings"
 	"testing"
 
+	"github.com/btcsuite/btcd/btcec/v2/ecdsa"
 	"github.com/btcsuite/btcd/btcutil/v2"
+	"github.com/btcsuite/btcd/chainhash/v2"
 	sphinx "github.com/lightningnetwork/lightning-onion"
 	"github.com/lightningnetwork/lnd/internal/verif/vstats"
 	"github.com/lightningnetwork/lnd/lntypes"
@@ -619,6 +621,51 @@ func c19RunSession(q *c19Query, pl c19SessionPlan) c19Result {
 	if err != nil {
 		return c19Result{err: err, stage: "newPaymentSession"}
 	}
+	if len(q.HintUpdates) > 0 {
+		// The payment life cycle: a first attempt, a failure that
+		// carries a channel_update for a private edge
+		// (handleFailureMessage: GetAdditionalEdgePolicy +
+		// UpdateAdditionalEdge), then the next attempt on the same
+		// session.
+		_, _ = sess.RequestRoute(
+			lnwire.MilliSatoshi(pl.MaxAmt),
+			lnwire.MilliSatoshi(q.FeeLimit), pl.Active, q.Height, nil,
+		)
+		for i, u := range q.HintUpdates {
+			pub := c19Pub(u.From)
+			policy := sess.GetAdditionalEdgePolicy(pub, u.ID)
+			if policy == nil {
+				return c19Result{stage: "hint-update", err: fmt.Errorf(
+					"C19 hint update %d: the session does not know "+
+						"the private edge %d of its own invoice", i, u.ID)}
+			}
+			msg := &lnwire.ChannelUpdate1{
+				ShortChannelID:  lnwire.NewShortChanIDFromInt(u.ID),
+				Timestamp:       uint32(1_700_000_000 + i),
+				MessageFlags:    lnwire.ChanUpdateRequiredMaxHtlc,
+				TimeLockDelta:   u.Delta,
+				HtlcMinimumMsat: 1,
+				HtlcMaximumMsat: 1 << 40,
+				BaseFee:         u.Base,
+				FeeRate:         u.PPM,
+			}
+			data, err := msg.DataToSign()
+			if err != nil {
+				return c19Result{err: err, stage: "setup"}
+			}
+			sig := ecdsa.Sign(c19Priv(u.Signer), chainhash.DoubleHashB(data))
+			msg.Signature, err = lnwire.NewSigFromSignature(sig)
+			if err != nil {
+				return c19Result{err: err, stage: "setup"}
+			}
+			ok := sess.UpdateAdditionalEdge(msg, pub, policy)
+			if ok != (u.Signer == u.From) {
+				return c19Result{stage: "hint-update", err: fmt.Errorf(
+					"C19 hint update %d (%+v): UpdateAdditionalEdge "+
+						"answered %v", i, u, ok)}
+			}
+		}
+	}
 	rt, err := sess.RequestRoute(
 		lnwire.MilliSatoshi(pl.MaxAmt), lnwire.MilliSatoshi(q.FeeLimit),
 		pl.Active, q.Height, nil,
@@ -765,6 +812,57 @@ func TestVerifC19RequestRoute(t *testing.T) {
 		}
 
 		res, f, ok := c19SessionCase(t, st, q, pl, "session")
+		// Channel updates for private edges between two attempts on the
+		// same session (added after seeded change C19f).
+		if ok && len(q.Hints) > 0 && !q.isBlinded() &&
+			c19Chance(t, "hintUpdates", 90) {
+
+			q3 := *q
+			q3.InvoiceHints = q.Hints
+			q3.Hints = nil
+			for ci, chain := range q.Hints {
+				nc := append([]c19Hint(nil), chain...)
+				for hi := range nc {
+					tag := fmt.Sprintf("u%d.%d.", ci, hi)
+					if !c19Chance(t, tag+"upd", 75) {
+						continue
+					}
+					h := nc[hi]
+					// each field changes on its own: single-field
+					// updates are the common case on the network
+					if c19Chance(t, tag+"base", 40) {
+						h.Base = uint32(c19Pick(t, tag+"b", 0, 1, 1000,
+							rapid.IntRange(0, 50_000).Draw(t, tag+"bv")))
+					}
+					if c19Chance(t, tag+"ppm", 40) {
+						h.PPM = uint32(c19Pick(t, tag+"p", 0, 1, 100,
+							rapid.IntRange(0, 20_000).Draw(t, tag+"pv")))
+					}
+					if c19Chance(t, tag+"dlt", 40) {
+						h.Delta = uint16(c19Pick(t, tag+"d", 0, 9, 40, 144,
+							rapid.IntRange(0, 500).Draw(t, tag+"dv")))
+					}
+					u := c19HintUpd{From: h.From, ID: h.ID, Base: h.Base,
+						PPM: h.PPM, Delta: h.Delta, Signer: h.From}
+					if c19Chance(t, tag+"forged", 15) {
+						u.Signer = (h.From + 1) % c19GraphKeys
+						if u.Signer == h.From {
+							u.Signer = (h.From + 2) % c19GraphKeys
+						}
+					} else {
+						nc[hi] = h
+					}
+					q3.HintUpdates = append(q3.HintUpdates, u)
+				}
+				q3.Hints = append(q3.Hints, nc)
+			}
+			if len(q3.HintUpdates) > 0 {
+				r3, _, _ := c19SessionCase(t, st, &q3, pl, "session_hint_update")
+				if r3.stage == "hint-update" {
+					t.Fatalf("%v\nmodel:\n%vrequest: %v", r3.err, q3.m, &q3)
+				}
+			}
+		}
 		if !ok || res.rt == nil {
 			return
 		}
